@@ -1,6 +1,8 @@
 SPEC_PART = dict(
     props_file="C17_bloom",
-    legs=[dict(family="bloom", focus="extremes", oracles=["no_panic", "prop_ok"], profiles=["debug", "release"], n_quick=100, n_thorough=1200,
+    legs=[dict(family="bloom", focus="extremes", oracles=["no_panic"], profiles=["debug", "release"], n_quick=100, n_thorough=1200,
+               panic_is_violation=True),
+          dict(family="bloom", focus="extremes-huge", oracles=["no_panic"], profiles=["debug", "release"], n_quick=8, n_thorough=60,
                panic_is_violation=True)],
     trusted=["bloom: panic sites modelled as Stuck: builder range assertions, compatibility assertion of union/intersect, the subtraction "
              "in invert; indexing, % capacity and num_bits_set += 1 are covered by explicit bounds in c17_bloom_ops_safe"],
